@@ -5,7 +5,8 @@
                (src/database/mutation_query.rs): snapshot of the old row (Node::get_with_entity),
                merge of the SNAPSHOT's json with the assigned fields, room = given room else the
                snapshot's room, mdate = date of the mutation, Edge::exists / Edge::get_edges
-               evaluated at read time, "is_update && !field_updated => node = None"
+               evaluated at read time, "is_update && !field_updated && !room_changed => node = None"
+               (room_changed: an explicit room_id of the entity that differs from the snapshot's room)
      valid  <- RoomAuthorisations::validate_mutation (signs the snapshot-derived row; reads no
                table).  In the scenarios of this property the caller holds every right, so the
                phase only moves the mutation into the FIFO towards the writer.
@@ -110,9 +111,17 @@ Definition ref_read (x : N) (date : Z) (es : list edge) (op : refop) : list edge
       let old := get_edges l es in (old, [], negb (is_nil old))
   end.
 
+(* an explicit room_id that differs from the room of the snapshot (room_id copies that
+   propagate_room gives to sub entities do not count: such sub entities are not modelled) *)
+Definition room_changes (old : row) (m : mutation) : bool :=
+  match m_room m with
+  | Some r => negb (opt_eqb N.eqb (r_room old) (Some r))
+  | None => false
+  end.
+
 Definition read_update (m : mutation) (old : row) (es : list edge) : pending :=
   let rs := map (ref_read (m_row m) (m_date m) es) (m_refs m) in
-  let upd := negb (is_nil (m_assign m)) || existsb (fun t => snd t) rs in
+  let upd := negb (is_nil (m_assign m)) || existsb (fun t => snd t) rs || room_changes old m in
   {| p_kind := PUpd; p_row := m_row m; p_date := m_date m; p_oldroom := r_room old;
      p_node := if upd then
                  Some {| r_id := r_id old; r_rowid := r_rowid old;
